@@ -7,6 +7,7 @@ from . import sched_common as sc
 from .sched_common import COQ_IMPORTS, TRUSTED, coq_case  # noqa: F401
 from ..coqgen import L, N, P
 from . import c01
+from .builtin_family import gen_builtin as _gen_builtin, run_builtin as _run_builtin, monitor_builtin as _monitor_builtin
 
 ID = "C03"
 COQ_CHECK = "c03_check"
@@ -51,89 +52,12 @@ def model_applies(case):
     return "builtin" not in case
 
 
-def _gen_builtin(rng):
-    day0 = rng.choice([0, 14, 28, 29, 30, 59, 89, 364 + 29, 364 + 30])   # days after 2000-01-01
-    gen_step = rng.choice([["d", 1], ["d", 1], ["h", 12], ["d", 2]])
-    mid_step = rng.choice([["m", 1], ["m", 1], ["d", 30], ["d", 7], ["m", 2], ["y", 1]])
-    cons_step = rng.choice([["d", 1], ["d", 5], ["m", 1], ["d", 31]])
-    span = {"m": 31 * 3, "y": 366 + 40, "d": 40}[mid_step[0]] + rng.choice([0, 5, 11])
-    order = rng.sample([0, 1, 2], 3)
-    return {"builtin": {"day0": day0, "gen": gen_step, "mid": mid_step, "cons": cons_step, "end_days": span,
-                        "order": order, "mid_initial_pull": rng.random() < 0.5, "trigger": rng.random() < 0.3}}
-
-
-def _delta(spec):
-    from datetime import timedelta
-    from dateutil.relativedelta import relativedelta
-    k, n = spec
-    return {"d": lambda: timedelta(days=n), "h": lambda: timedelta(hours=n), "m": lambda: relativedelta(months=n),
-            "y": lambda: relativedelta(years=n)}[k]()
-
-
-def _run_builtin(b):
-    from datetime import datetime, timedelta
-    import finam as fm
-    from ..fin import err_class
-    start = datetime(2000, 1, 1) + timedelta(days=b["day0"])
-    end = start + timedelta(days=b["end_days"])
-    info = lambda: fm.Info(time=None, grid=fm.NoGrid(), units="")  # noqa: E731
-    gen = fm.components.CallbackGenerator({"Out": (lambda t: float(t.toordinal()), info())}, start=start, step=_delta(b["gen"]))
-    seen = []
-
-    def cb(inputs, t):
-        seen.append(t)
-        v = inputs["In"] if inputs is not None else None
-        return {"Out": (float(fm.data.get_magnitude(v).reshape(-1)[0]) if v is not None else 0.0) + 1.0}
-
-    mid = fm.components.CallbackComponent(inputs={"In": info()}, outputs={"Out": info()}, callback=cb, start=start,
-                                          step=_delta(b["mid"]), initial_pull=b["mid_initial_pull"])
-    cons = fm.components.DebugConsumer({"In": info()}, start=start, step=_delta(b["cons"]))
-    comps = [gen, mid, cons]
-    if b.get("trigger"):
-        trig = fm.components.TimeTrigger(in_info=info(), start=start, step=_delta(b["gen"]))
-        comps.append(trig)
-    listed = [comps[i] for i in b["order"]] + comps[3:]
-    outcome, msg = "ok", ""
-    try:
-        composition = fm.Composition(listed)
-        if b.get("trigger"):
-            gen.outputs["Out"] >> trig.inputs["In"]
-            trig.outputs["Out"] >> mid.inputs["In"]
-        else:
-            gen.outputs["Out"] >> mid.inputs["In"]
-        mid.outputs["Out"] >> cons.inputs["In"]
-        composition.connect(start)
-        composition.run(end_time=end)
-    except Exception as e:  # noqa
-        outcome, msg = err_class(e), str(e)[:300]
-    times = []
-    for c in comps:
-        try:
-            times.append(c.time.isoformat())
-        except Exception:  # noqa
-            times.append(None)
-    return {"builtin": True, "outcome": outcome, "msg": msg, "end": end.isoformat(), "times": times,
-            "status": [str(c.status).split(".")[-1] for c in comps],
-            "mid_times": [t.isoformat() for t in seen], "mid_monotone": all(a < b_ for a, b_ in zip(seen, seen[1:]))}
-
-
 def run_impl(case):
     if "builtin" in case:
         return _run_builtin(case["builtin"])
     return sc.run_impl(case)
 
 
-def _monitor_builtin(case, obs):
-    if obs["outcome"] != "ok":
-        return f"run of a valid composition of finam's own components ended with {obs['outcome']}: {obs['msg']}"
-    for name, t in zip(["generator", "callback component", "consumer", "trigger"], obs["times"]):
-        if t is None or t < obs["end"]:
-            return f"run returned with the {name} at {t} < end time {obs['end']}"
-    if any(s != "FINALIZED" for s in obs["status"]):
-        return f"final statuses {obs['status']}"
-    if not obs["mid_monotone"]:
-        return "the callback component's time did not increase strictly"
-    return None
 
 
 def monitor(case, obs):
